@@ -396,6 +396,28 @@ def _p10(ctx):
                 ctx.add('P10a', 'T-FLOW', fn, oka, 'the new stream starts at the parent\'s position, loaded during the call' if oka else
                         'the new stream\'s initial position is not (only) the parent\'s current position (sources: %s, arithmetic/constants: %s)'
                         % ([sorted(a.paths)[0] for a in srcs], bool(arith)), where=x.where_stmt(nid, si), sub=sub + '|startpos')
+                # the snapshot is still the parent's position when the new stream becomes visible to the writers: either
+                # nobody else can move the parent (this handle is the stream's only consumer, tested), or the position is
+                # read again after the publication and the stream is handed out only if it did not move.  Otherwise a
+                # sibling handle can consume in between, the writers (who did not see the new stream yet) overwrite those
+                # slots and cache a tail beyond the snapshot; the new stream then appears *behind* the cached tail, the
+                # cache is pulled back, the equality test "head - N == tail" is never met again and back-pressure is gone
+                if not pstores:
+                    ploads = [a for a in x.atoms_on('ReaderPos.pos_data', ops={'load'}) if any(p.startswith('<Reader>/Reader.pos/ReaderPos.pos_data') for p in a.paths)]
+                    one_e, _f1, _h1 = x.eq_tests(lambda a_, b_: a_[0] == 'call' and x.rep(a_[1]) in x.atoms and x.atoms[x.rep(a_[1])].on('ReaderMeta.num_consumers') and is_const(b_, 1))
+                    sole = bool(one_e) and x.dom(set(one_e), C)
+                    reval = set()
+                    for t_ in x.tests(('Eq',)):
+                        for (p_, q_) in ((t_.a, t_.b), (t_.b, t_.a)):
+                            lp = [l_ for l_ in x.loads_in(p_) if l_ in ploads and x.dom(succ, l_.nid)]
+                            lq = [l_ for l_ in x.loads_in(q_) if l_ in ploads and not x.dom(succ, l_.nid)]
+                            if lp and lq:
+                                reval.update(t_.true)
+                    okv2 = sole or (bool(reval) and all(x.dom(reval, ex) for ex in g.exits))
+                    ctx.add('P10a', 'T-DOM', fn, okv2, 'the position snapshot is still valid when the new stream is published (sole consumer, or re-validated after the publication)' if okv2 else
+                            'the parent position is read once before the list with the new stream is published and never looked at again: when another handle of the parent stream consumes in between, the new stream appears behind the '
+                            'writers\' cached tail (values already overwritten); the cache is pulled back and the fullness test `head - N == tail` is never met again - the new stream delivers nothing and back-pressure is lost on every stream',
+                            where=g.where(C), sub=sub + '|snapshot-valid')
                 masks = [s for s in g.walk(e) if s[0] == 'fld' and s[2] == 'CountedIndex.mask']
                 okm = any(any(p.startswith('<Reader>/Reader.pos/ReaderPos.pos_data') for p in g.locpaths(('ref', s))) for s in masks)
                 ctx.add('P15w', 'T-FLOW', fn, okm, 'the new stream uses the parent\'s wrap (same count->slot map)' if okm else 'new stream wrap does not derive from the parent', sub=sub + '|wrap')
@@ -470,6 +492,22 @@ def _w_signal(ctx):
     # W7: who writes num_consumers
     cands = sorted({s_ for c_ in fns_mentioning(F, 'ReaderMeta', 'num_consumers') for s_ in ctx.subjects_for(c_)})
     ctx.floor('W7', len(cands), 3, 'functions naming ReaderMeta.num_consumers')
+    # the counters of handles and positions are as wide as the address space: a narrower counter wraps to "one handle"
+    # / to an old position while more handles (values) exist than it can count
+    for (adt_, fld_, what_) in (('ReaderMeta', 'num_consumers', 'consumer handles of a stream'), ('MultiQueue', 'writers', 'sender handles'),
+                                ('RefCnt', 'refcnt', 'pins of a slot'), ('CountedIndex', 'val', 'positions (count and slot index)'),
+                                ('MemToken', 'epoch', 'reclamation epochs'), ('MemoryManager', 'epoch', 'reclamation epochs')):
+        for name_, a_ in F.adts.items():
+            if short(name_) != adt_:
+                continue
+            for f_ in a_['variants'][0]['fields']:
+                if f_['name'] != fld_:      # (renamed private fields carry their reference name here, see roles.py)
+                    continue
+                ty_ = f_['ty']['s']
+                okw = bool(re.search(r'Atomic(<(usize|isize|u64|i64|u128)>|Usize|Isize|U64|I64)$', ty_))
+                ctx.add('W7', 'T-TYPE', ctx.fn1(r'^multiqueue::MultiQueue::<.*>::new_internal$'), okw, '%s.%s counts %s in a word-sized atomic' % (adt_, fld_, what_) if okw else
+                        '%s.%s counts %s in `%s`: narrower than a word, it wraps while more of them exist than it can hold (a wrapped handle count reads "1": the single-consumer / single-producer fast paths are taken by several handles at once)'
+                        % (adt_, fld_, what_, ty_), where='%s:%d' % (a_['file'], a_['line']), sub='width|%s.%s' % (adt_, fld_))
     clone = ctx.fn1(r'^<multiqueue::InnerRecv<.*> as std::clone::Clone>::clone$')
     callers_dup = set()
     for c in cands:
